@@ -3,6 +3,7 @@ pub mod adversary;
 pub mod cluster;
 pub mod engine;
 pub mod hub;
+pub mod refmodel;
 
 use std::rc::Rc;
 
